@@ -81,7 +81,7 @@ def run(s):
     tmpdir = tempfile.mkdtemp(prefix='verif-c10-')
     hows = ('strings', 'files', 's3')
     try:
-        n_lists = 45 if q else 1500
+        n_lists = 90 if q else 3000
         for i in range(n_lists):
             if not s.mine(i):
                 continue
